@@ -39,8 +39,12 @@ def _run(unit, fn, args, st):
         if base.get("kind") == "CXXThisExpr":
             return ("this", n.get("name"))
         bv = ev.ev(A.kids(n)[0])
-        if isinstance(bv, tuple) and bv[0] == "slot":
+        if isinstance(bv, tuple) and bv[0] in ("slot", "slotptr"):
             return ("slot", bv[1], n.get("name"))
+        if bv == ("this",):
+            return ("this", n.get("name"))           # through a reference or pointer to the manager
+        if bv == ("slots",) and n.get("isArrow"):
+            return ("slot", 0, n.get("name"))
         return None
 
     def get(key, n):
@@ -63,6 +67,45 @@ def _run(unit, fn, args, st):
             return ev.ev(ks[0])
         if k == "CXXThisExpr":
             return ("this",)
+        if k == "UnaryOperator" and n.get("opcode") == "*":
+            v = ev.ev(ks[0])
+            if v == ("this",):
+                return v
+            if isinstance(v, tuple) and v[0] == "slotptr":
+                return ("slot", v[1])
+            if v == ("slots",):
+                return ("slot", 0)
+            return NotImplemented
+        if k == "BinaryOperator" and n.get("opcode") in ("+", "-", "==", "!=", "<", ">", "<=", ">="):
+            tl, tr = A.qtype(ks[0]) or "", A.qtype(ks[1]) or ""
+            if "AutomationSlot" in tl or "AutomationSlot" in tr:
+                def idx(v):
+                    if v == ("slots",):
+                        return 0
+                    if isinstance(v, tuple) and v[0] == "slotptr":
+                        return v[1]
+                    return None
+                a, b = ev.ev(ks[0]), ev.ev(ks[1])
+                ia, ib = idx(a), idx(b)
+                op = n.get("opcode")
+                if op == "+" and ia is not None and isinstance(b, int):
+                    return ("slotptr", ia + b)
+                if op == "+" and ib is not None and isinstance(a, int):
+                    return ("slotptr", ib + a)
+                if op == "-" and ia is not None and isinstance(b, int):
+                    return ("slotptr", ia - b)
+                if ia is not None and ib is not None:
+                    return {"-": ia - ib, "==": int(ia == ib), "!=": int(ia != ib), "<": int(ia < ib), ">": int(ia > ib), "<=": int(ia <= ib), ">=": int(ia >= ib)}[op]
+                raise FD.Unknown("slot pointer arithmetic on %r, %r" % (a, b), n)
+            return NotImplemented
+        if k == "UnaryOperator" and n.get("opcode") in ("++", "--") and "AutomationSlot" in (A.qtype(ks[0]) or "") and "*" in (A.qtype(ks[0]) or ""):
+            rid = A.ref_id(ks[0])
+            v = ev.env.get(rid)
+            if rid is None or not (v == ("slots",) or (isinstance(v, tuple) and v[0] == "slotptr")):
+                raise FD.Unknown("step of a slot pointer", n)
+            i0 = 0 if v == ("slots",) else v[1]
+            ev.env[rid] = ("slotptr", i0 + (1 if n.get("opcode") == "++" else -1))
+            return v if n.get("isPostfix") else ev.env[rid]
         if k == "MemberExpr":
             key = cell(n, ev)
             if key is not None:
@@ -70,6 +113,9 @@ def _run(unit, fn, args, st):
             return NotImplemented
         if k == "ArraySubscriptExpr":
             b = ev.ev(ks[0])
+            if isinstance(b, tuple) and b[0] == "slotptr":
+                i = ev.ev(ks[1])
+                return ("slot", b[1] + i)
             if b == ("slots",):
                 i = ev.ev(ks[1])
                 if not isinstance(i, int):
@@ -106,6 +152,14 @@ def _run(unit, fn, args, st):
                 st[key] = old + (1 if n.get("opcode") == "++" else -1)
                 return old if n.get("isPostfix") else st[key]
             return NotImplemented
+        if k == "UnaryOperator" and n.get("opcode") == "&" and A.strip_casts(ks[0]).get("kind") == "DeclRefExpr" and \
+                (A.strip_casts(ks[0]).get("referencedDecl") or {}).get("kind") == "FieldDecl":
+            return ("memptr", A.strip_casts(ks[0])["referencedDecl"].get("name"))       # &AutomationSlot::midi_cc
+        if k == "BinaryOperator" and n.get("opcode") in (".*", "->*"):
+            b, m = ev.ev(ks[0]), ev.ev(ks[1])
+            if isinstance(b, tuple) and b[0] in ("slot", "slotptr") and isinstance(m, tuple) and m[0] == "memptr":
+                return get(("slot", b[1], m[1]), n)
+            raise FD.Unknown("pointer to member on %r" % (b,), n)
         if k == "UnaryOperator" and n.get("opcode") == "&":
             try:
                 v = ev.ev(ks[0])
@@ -123,6 +177,27 @@ def _run(unit, fn, args, st):
                 if x.get("kind") == "IntegerLiteral":
                     return int(x["value"])
             raise FD.Unknown("enum constant %s" % n["referencedDecl"].get("name"), n)
+        if k == "CallExpr" and A.callee_name(n) in ("find_if", "find_if_not", "any_of", "none_of", "all_of", "count_if"):
+            # the standard searches over the slots with a predicate written as a lambda
+            nm = A.callee_name(n)
+            first, last = ev.ev(ks[1]), ev.ev(ks[2])
+            lam = [y for y in A.walk(ks[3]) if y.get("kind") == "LambdaExpr"]
+            i0 = 0 if first == ("slots",) else (first[1] if isinstance(first, tuple) and first[0] == "slotptr" else None)
+            i1 = last[1] if isinstance(last, tuple) and last[0] == "slotptr" else None
+            if len(lam) != 1 or i0 is None or i1 is None:
+                raise FD.Unknown("%s over something else than the slots" % nm, n)
+            ops = [y for y in A.walk(lam[0]) if y.get("kind") == "CXXMethodDecl" and (y.get("name") or "") == "operator()" and unit.body(y) is not None]
+            if len(ops) != 1:
+                raise FD.Unknown("lambda without a body", n)
+            hits = [i for i in range(i0, i1) if ev.call_function(unit, ops[0], [("slot", i)])]
+            if nm == "find_if":
+                return ("slotptr", hits[0] if hits else i1)
+            if nm == "find_if_not":
+                miss = [i for i in range(i0, i1) if i not in hits]
+                return ("slotptr", miss[0] if miss else i1)
+            if nm == "count_if":
+                return len(hits)
+            return int({"any_of": bool(hits), "none_of": not hits, "all_of": len(hits) == i1 - i0}[nm])
         if k in ("CXXMemberCallExpr", "CallExpr"):
             nm = A.callee_name(n)
             if nm is None and k == "CXXMemberCallExpr":
